@@ -46,8 +46,8 @@ def _arr(S, rows):
 def _in_bounds(S, name, s, p):
     b = s.bounds
     for ax in range(3):
-        S.claim(f'{name}.lo[{ax}]', b[ax][0] <= p[ax])
-        S.claim(f'{name}.hi[{ax}]', p[ax] <= b[ax][1])
+        S.claim_le(f'{name}.lo[{ax}]', b[ax][0], p[ax])
+        S.claim_le(f'{name}.hi[{ax}]', p[ax], b[ax][1])
 
 
 SPH = ['holopy.scattering.scatterer.scatterer.Scatterer.contains',
@@ -380,10 +380,10 @@ def _overlaps(S, n, layered_first=False, limit=True):
         gaps[(i, j)] = R - np.sqrt(d2)
     largest = sp.largest_overlap()
     S.observe('largest', largest)
-    S.claim('largest>=0', largest >= 0)
+    S.claim_ge('largest>=0', largest, 0)
     anyeq = (largest == 0)
     for pq, gp in gaps.items():
-        S.claim(f'largest>=gap{list(pq)}', largest >= gp)
+        S.claim_ge(f'largest>=gap{list(pq)}', largest, gp)
         anyeq = anyeq | (largest == gp) if S.sym else (anyeq or abs(largest - gp) < 1e-12)
     S.claim('largest_is_attained', anyeq)
     if limit:
